@@ -187,7 +187,9 @@ def apiLine (line : String) : String :=
     match charsOfHex h with
     | some cs => parseOut (parse cs)
     | none => "err err"
-  | _ => "-"
+  | "chunk" :: _ => "skipped"
+  | "typed" :: _ => "skipped"
+  | _ => "bad-op"
 
 /-! ## monitor -/
 
@@ -280,6 +282,10 @@ def hasSurrogateEscape : List Char → Bool
   | _ :: r => hasSurrogateEscape r
   | [] => false
 
+/-- The same scan on raw bytes (the body of a `chunk` op need not be valid UTF-8; the pattern is ASCII). -/
+def hasSurrogateEscapeBytes (bs : List Nat) : Bool :=
+  hasSurrogateEscape (bs.map fun b => if b < 128 then Char.ofNat b else '?')
+
 def panicReason (text : Option (List Char)) : String :=
   match text with
   | some cs => if hasSurrogateEscape cs then "panic-surrogate-escape" else "panic"
@@ -316,9 +322,15 @@ def Mon.step (m : Mon) (op out : String) : Mon × Option String :=
     | _ => none
   if (words out).any (fun w => w == "hang" || w.endsWith "=hang" || w.endsWith ":hang") then (m, some "hang")
   else if (words out).any (fun w => w == "panic" || w.endsWith "=panic" || w.endsWith ":panic") then
-    (m, some (panicReason (match ws with
-      | ["cycle", s, e] => (match styleOf s, vdec e with | some st, some v => some (print st v) | _, _ => none)
-      | _ => text)))
+    (m, some (match ws with
+      | ["cycle", s, e] =>
+        panicReason (match styleOf s, vdec e with | some st, some v => some (print st v) | _, _ => none)
+      | ["chunk", h, _] =>
+        (match bytesOfHex h with
+         | some bs => if hasSurrogateEscapeBytes bs then "panic-surrogate-escape" else "panic"
+         | none => "panic")
+      | _ => panicReason text))
+  else if out == "skipped" then (m, none)
   else
   match ws with
   | ["cycle", _, e] =>
